@@ -189,22 +189,43 @@ theorem selection_first_match (secs : List Section) (syms : List Symbol) (k : St
   ⟨fun _ h => firstKernelSym_is_first h, firstKernelSym_none_iff secs syms k, isKernelSym_iff secs,
    auto_detect_selects_the_only secs syms⟩
 
-/-- **named_load_faults_exactly.** A load by name panics exactly when the symbol slice panics
-or the descriptor slice panics; the latter happens exactly when the first `<k>.kd` symbol of
-size 64 in a `.rodata`-named section has an offset from `.rodata` within 64 of 2^64 (1..64
-bytes below the section, or ≥ 2^64−64 above it) whose wrapped end still fits: the check
-`kdOffset+64 <= len` overflows. -/
-theorem named_load_faults_exactly (secs : List Section) (text : Section) (td : Bytes) (syms : List Symbol) (k : String)
-    (hv : ∀ s ∈ syms, s.value < U64) :
+/-- **named_load_faults_exactly.** After the repair of `findV5KernelDescriptor` a load by name
+panics exactly when the kernel symbol's own slice panics: the descriptor lookup is total —
+for every view, every symbol table and every name it answers "none" or "found", never a panic. -/
+theorem named_load_faults_exactly (secs : List Section) (text : Section) (td : Bytes) (syms : List Symbol) (k : String) :
     (loadNamed secs text td syms k = .fault ↔
-      (selectKernel secs text.addr td syms k = .err .hiPastCap ∨ selectKernel secs text.addr td syms k = .err .loPastHi ∨
-       ∃ s b, selectKernel secs text.addr td syms k = .ok s b ∧ findV5 secs k syms = .fault)) ∧
-    (findV5 secs k syms = .fault ↔
+      (selectKernel secs text.addr td syms k = .err .hiPastCap ∨ selectKernel secs text.addr td syms k = .err .loPastHi)) ∧
+    findV5 secs k syms ≠ .fault :=
+  ⟨loadNamed_fault_iff secs text td syms k, findV5_never_faults secs k syms⟩
+
+/-- the totality statement for the lookup as it was before the repair -/
+def kd_lookup_total_before_fix : Prop :=
+  ∀ (secs : List Section) (k : String) (syms : List Symbol), (∀ s ∈ syms, s.value < U64) → findV5Old secs k syms ≠ .fault
+
+/-- **kd_lookup_total_before_fix_refuted.** It was false: `kdOffset+64 <= len` wrapped. Witness:
+`.rodata` at address 0 with 64 bytes and a `k.kd` symbol of size 64 at 0xfffffffffffffff0. -/
+theorem kd_lookup_total_before_fix_refuted : ¬ kd_lookup_total_before_fix := by
+  intro h
+  refine h [⟨"", 0, some []⟩, ⟨".rodata", 0, some (List.replicate 64 0)⟩] "k" [⟨"k.kd", 0xfffffffffffffff0, 64, 1⟩] ?_ ?_
+  · intro s hs
+    simp only [List.mem_singleton] at hs
+    subst hs
+    decide
+  · decide +kernel
+
+/-- **kd_repair_is_conservative.** The old lookup panicked exactly when the first `<k>.kd` symbol
+of size 64 in a `.rodata`-named section had a uint64 offset from `.rodata` within 64 of 2^64
+(1..64 bytes below the section, or ≥ 2^64−64 above it) whose wrapped end fitted the data; on
+every other input the repaired lookup answers what the old one answered. -/
+theorem kd_repair_is_conservative (secs : List Section) (k : String) (syms : List Symbol)
+    (hv : ∀ s ∈ syms, s.value < U64) (ha : ∀ sec ∈ secs, ∀ d, sec.data = some d → sec.addr + d.length < U64) :
+    (findV5Old secs k syms = .fault ↔
       ∃ ro rod s sec, findSection secs ".rodata" = some ro ∧ ro.data = some rod ∧
         syms.find? (fun s => s.name == k ++ ".kd" && s.size == 64) = some s ∧ secs[s.shndx]? = some sec ∧
         sec.name = ".rodata" ∧ U64 ≤ wrapSub s.value ro.addr + 64 ∧
-        wrapSub s.value ro.addr + 64 - U64 ≤ rod.length) :=
-  ⟨loadNamed_fault_iff secs text td syms k, findV5_fault_iff secs k syms hv⟩
+        wrapSub s.value ro.addr + 64 - U64 ≤ rod.length) ∧
+    (findV5Old secs k syms ≠ .fault → findV5 secs k syms = findV5Old secs k syms) :=
+  ⟨findV5Old_fault_iff secs k syms hv, findV5_eq_old secs k syms hv ha⟩
 
 /-! ## 2½. end to end: typed metadata through `loadKernel` -/
 
@@ -395,11 +416,13 @@ example : selWF exSelSecs 0x1000 [1, 2, 3, 4, 5, 6, 7, 8] exSelSyms "k" = true :
 example : selectKernel exSelSecs 0x1000 [1, 2, 3, 4] [⟨"k", 0x1002, 4, 2⟩] "k" = .err .hiPastCap := by decide +kernel
 example : selectKernel exSelSecs 0x1000 [1, 2, 3, 4] [⟨"k", 0xfff, 2, 2⟩] "k" = .err .loPastHi := by decide +kernel
 example : selectKernel exSelSecs 0x1000 [1, 2, 3, 4] [⟨"k", 0x1000, 0, 2⟩] "k" = .err .notFound := by decide +kernel
-/-- the descriptor-slice panic: a `.kd` symbol 16 bytes below `.rodata` -/
-example : findV5 [⟨"", 0, some []⟩, ⟨".rodata", 0x600, some (List.replicate 64 0)⟩] "k" [⟨"k.kd", 0x5f0, 64, 1⟩] = .fault := by
+/-- the two descriptor placements that used to panic are now ignored: 16 bytes below `.rodata` … -/
+example : findV5Old [⟨"", 0, some []⟩, ⟨".rodata", 0x600, some (List.replicate 64 0)⟩] "k" [⟨"k.kd", 0x5f0, 64, 1⟩] = .fault ∧
+    findV5 [⟨"", 0, some []⟩, ⟨".rodata", 0x600, some (List.replicate 64 0)⟩] "k" [⟨"k.kd", 0x5f0, 64, 1⟩] = .none := by
   decide +kernel
-/-- … and one whose offset is ≥ 2^64 − 64 above it -/
-example : findV5 [⟨"", 0, some []⟩, ⟨".rodata", 0, some (List.replicate 64 0)⟩] "k" [⟨"k.kd", 0xfffffffffffffff0, 64, 1⟩] = .fault := by
+/-- … and an offset ≥ 2^64 − 64 above it -/
+example : findV5Old [⟨"", 0, some []⟩, ⟨".rodata", 0, some (List.replicate 64 0)⟩] "k" [⟨"k.kd", 0xfffffffffffffff0, 64, 1⟩] = .fault ∧
+    findV5 [⟨"", 0, some []⟩, ⟨".rodata", 0, some (List.replicate 64 0)⟩] "k" [⟨"k.kd", 0xfffffffffffffff0, 64, 1⟩] = .none := by
   decide +kernel
 
 /-- a session that loads `b` from the example object twice around other loads -/
